@@ -37,3 +37,27 @@ pub fn emit(event: &str, fields: &str) {
         }
     }
 }
+
+// ---------------------------------------------------------------------------------------------
+// read-only state dumps (pass-through accessors; nothing below changes any state)
+
+use actix::prelude::*;
+
+/// `SequenceDbManager` has no query message; dump its counters (sorted by key).
+#[derive(Message)]
+#[rtype(result = "Vec<(String, u64)>")]
+pub struct DumpSequences;
+
+impl Handler<DumpSequences> for crate::sequence::core::SequenceDbManager {
+    type Result = MessageResult<DumpSequences>;
+
+    fn handle(&mut self, _msg: DumpSequences, _ctx: &mut Self::Context) -> Self::Result {
+        let mut v: Vec<(String, u64)> = self
+            .seq_map
+            .iter()
+            .map(|(k, v)| (k.as_ref().to_owned(), *v))
+            .collect();
+        v.sort();
+        MessageResult(v)
+    }
+}
